@@ -68,12 +68,12 @@ theorem publicMemoryProduct_eq (pi : PublicInput) (z alpha : Felt) :
 theorem ratio_unfold (pi : PublicInput) (z alpha size : Felt) :
     publicMemoryProductRatio pi z alpha size =
       if ¬ ((totalLength pi).val ≤ size.val) then
-        .panic "public_memory.rs:get_public_memory_product_ratio:assert"
+        .err "None:total_length"
       else if (pi.mainPage.map (cellFactor z alpha)).prod
           * (pi.continuousPageHeaders.map (·.prod)).prod = 0 then
-        .panic "public_memory.rs:get_public_memory_product_ratio:div0"
+        .err "None:pages_product"
       else if padFactor pi z alpha ^ (size - totalLength pi).val = 0 then
-        .panic "public_memory.rs:get_public_memory_product_ratio:div1"
+        .err "None:denominator_pad"
       else .ok (z ^ size.val *
         ((pi.mainPage.map (cellFactor z alpha)).prod
           * (pi.continuousPageHeaders.map (·.prod)).prod
@@ -104,8 +104,8 @@ theorem memory_ratio (pi : PublicInput) (z alpha size : Felt)
           * padFactor pi z alpha ^ (size - totalLength pi).val)⁻¹) := by
   rw [ratio_unfold, if_neg (not_not.2 htot), if_neg hprod, if_neg hpad]
 
-theorem memory_ratio_no_err (pi : PublicInput) (z alpha size : Felt) (e : String) :
-    publicMemoryProductRatio pi z alpha size ≠ .err e := by
+theorem memory_ratio_no_panic (pi : PublicInput) (z alpha size : Felt) (e : String) :
+    publicMemoryProductRatio pi z alpha size ≠ .panic e := by
   rw [ratio_unfold]
   split
   · simp
@@ -113,8 +113,8 @@ theorem memory_ratio_no_err (pi : PublicInput) (z alpha size : Felt) (e : String
     · simp
     · split <;> simp
 
-theorem memory_ratio_panic_iff (pi : PublicInput) (z alpha size : Felt) :
-    (∃ s, publicMemoryProductRatio pi z alpha size = .panic s) ↔
+theorem memory_ratio_err_iff (pi : PublicInput) (z alpha size : Felt) :
+    (∃ s, publicMemoryProductRatio pi z alpha size = .err s) ↔
       (size.val < (totalLength pi).val
         ∨ (pi.mainPage.map (cellFactor z alpha)).prod
             * (pi.continuousPageHeaders.map (·.prod)).prod = 0
@@ -186,13 +186,13 @@ theorem memory_ratio_padded (pi : PublicInput) (z alpha size : Felt)
     (by rw [hs]; exact h2), hs, hc]
   simp
 
-theorem memory_ratio_padded_panic (pi : PublicInput) (z alpha size : Felt)
+theorem memory_ratio_padded_err (pi : PublicInput) (z alpha size : Felt)
     (hc : pi.continuousPageHeaders = []) (hlen : pi.mainPage.length ≤ size.val)
     (h0 : ((paddedColumn pi size).map (cellFactor z alpha)).prod = 0) :
-    ∃ s, publicMemoryProductRatio pi z alpha size = .panic s := by
+    ∃ s, publicMemoryProductRatio pi z alpha size = .err s := by
   obtain ⟨hv, hs⟩ := padded_facts pi size hc hlen
   rw [paddedColumn_prod] at h0
-  rw [memory_ratio_panic_iff, hs, hc]
+  rw [memory_ratio_err_iff, hs, hc]
   rcases mul_eq_zero.1 h0 with h | h
   · exact Or.inr (Or.inl (by simpa using h))
   · exact Or.inr (Or.inr h)
